@@ -5,8 +5,9 @@ CONSTANTS
   Handlings = {"resend", "delta"}
   NDs = {1, 2, 3}
   Vals = {"a", "b", "c"}
-  MaxLen = 4
+  MaxLen = 3
   MaxWrites = 6
   ContinueAfterError = TRUE
+  Rich = FALSE
 INVARIANTS Emit R1_RoundTrip R1s_StreamExact R2_FileNoReplacement R3_OneMessagePerAcceptedBatch I_Order I_Sync
 CHECK_DEADLOCK FALSE
